@@ -1,6 +1,7 @@
 import SeqVerif.Model.BulkProc
 import SeqVerif.Model.BulkTime
 import SeqVerif.Model.BulkMeta
+import SeqVerif.Model.BulkMetaCodec
 import SeqVerif.Extracted.C10
 /-!
 # C10 - bulk ingestion stores valid documents verbatim, timed by rule, or stores nothing
@@ -28,25 +29,20 @@ theorem c10_payload_roundtrip (ds : List Bytes) (h : ∀ d, d ∈ ds → d.lengt
     decodeDocs (encodeDocs ds).length (encodeDocs ds) = some ds :=
   decode_encode ds h
 
+/-- **metas payload round trip.**  The metas payload (`marshalAppendMeta` per meta: length prefix, magic,
+version, MID, RID, Size, tokens) splits into records and unmarshals (`MetaData.UnmarshalBinary`) to exactly the
+metas appended, in order - IDs, sizes and token bytes unchanged (fields within their Go integer widths). -/
+theorem c10_metas_roundtrip (ms : List MetaRec) (h : ∀ m, m ∈ ms → m.Ok)
+    (hl : ∀ m, m ∈ ms → (encMeta m).length < 4294967296) :
+    (decodeDocs (encodeMetas ms).length (encodeMetas ms)).bind (fun rs => rs.mapM decMeta) = some ms :=
+  decode_encodeMetas ms h hl
+
 /-- request body made of entries followed by trailing blank lines -/
 def bodyOf (es : List Entry) (trail : List Bytes) : Bytes := render (es.flatMap Entry.lines ++ trail)
 
 /-- what the property says must be stored: the document lines within the size limit that are JSON objects,
 terminator removed, in order -/
 def storedOf (B : Nat) (kind : Bytes → Kind) (es : List Entry) : List Bytes := objects kind (docsOf B es)
-
-/-- shape of the answer of an accepted request that must store `S` -/
-def acceptedWith (mk : Bytes → Meta) (S : List Bytes) : Result :=
-  ⟨.ok S.length, if S = [] then none else some (S.length, encodeDocs S, S.map mk)⟩
-
-theorem finish_done (kind : Bytes → Kind) (mk : Bytes → Meta) (ds : List Bytes)
-    (h : ∀ d, d ∈ ds → kind d ≠ .invalid) :
-    finish true (procList kind mk St.init ds .done) = acceptedWith mk (objects kind ds) := by
-  rw [procList_done kind mk ds St.init h, foldl_push]
-  simp only [finish, St.init, acceptedWith, encodeDocs_eq, List.nil_append, Nat.zero_add]
-  cases hS : objects kind ds with
-  | nil => simp
-  | cons d S => simp
 
 /-- **C10 (stored exactly, counted exactly).**  For every buffer size, every JSON oracle and every accepted
 body (entries that pass the protocol checks, no in-limit document line that is invalid JSON, clean end of
@@ -89,12 +85,12 @@ theorem c10_accepted_characterised (E : Env) (hB : 2 ≤ E.B) (hclean : E.clean 
       (∀ d, d ∈ docsOf E.B es → kind d ≠ .invalid) ∧
       processDocuments E checkN kind mk true (render ls) = acceptedWith mk (storedOf E.B kind es) := by
   rw [processDocuments_render E hB checkN kind mk true ls hnl] at h ⊢
-  cases hp : procList kind mk St.init (frame E checkN .action 0 ls).1 (frame E checkN .action 0 ls).2 with
+  cases hp : procList kind mk St.init (frame E checkN [] .action 0 ls).1 (frame E checkN [] .action 0 ls).2 with
   | err e => rw [hp] at h; cases h
   | ok st =>
     obtain ⟨hdone, hvalid⟩ := procList_ok_inv kind mk _ _ _ _ hp
     obtain ⟨es, trail, hls, hwf, ht⟩ :=
-      frame_done_entries E checkN ls.length ls (Nat.le_refl _) 0 (frame E checkN .action 0 ls).1 (Prod.ext rfl hdone)
+      frame_done_entries E checkN ls.length ls (Nat.le_refl _) 0 (frame E checkN [] .action 0 ls).1 (Prod.ext rfl hdone)
     have hfr := frame_entries E checkN trail ht es 0 hwf
     rw [← hls] at hfr
     refine ⟨es, trail, hls, hwf, ht, ?_, ?_⟩
@@ -176,63 +172,133 @@ theorem c10_error_means_no_call (E : Env) (checkN : Nat) (kind : Bytes → Kind)
       · cases h
       · injection h with h; exact absurd h.symm hs
 
+/-- **C10 (last document line without a final newline).**  The same for a body whose last document line is not
+terminated: entries, then blank lines, an action line and the unterminated remainder `tail` as the last document.
+It is within the size limit iff it is shorter than the buffer (or exactly fills it when the end of the stream is
+already known: `fitsTail`), it is stored as it is (no `'\r'` stripping without a `'\n'`), and an over-long one is
+skipped provided the skipping does not run into the end of the stream (`tailSkipOk`; otherwise see
+`c10_unterminated_oversize_rejected`). -/
+theorem c10_stored_exactly_unterminated (E : Env) (hB : 2 ≤ E.B) (hclean : E.clean = true)
+    (checkN : Nat) (kind : Bytes → Kind) (mk : Bytes → Meta) (es : List Entry) (blanks : List Bytes)
+    (action tail : Bytes)
+    (hnl : NoNL (es.flatMap Entry.lines ++ (blanks ++ [action]))) (htail : 10 ∉ tail) (hne : tail ≠ [])
+    (hwf : WFFrom E checkN 0 es) (hbl : ∀ b, b ∈ blanks → Blank E.B b)
+    (ha1 : fits E.B action = true) (ha2 : dropCR action ≠ [])
+    (ha3 : unknownAction checkN es.length (dropCR action) = false)
+    (hvalid : ∀ d, d ∈ docsOf E.B es → kind d ≠ .invalid)
+    (hlast : fitsTail E tail = true → kind tail ≠ .invalid)
+    (hskip : fitsTail E tail = false → tailSkipOk E tail = true) :
+    processDocuments E checkN kind mk true (render (es.flatMap Entry.lines ++ (blanks ++ [action])) ++ tail) =
+      acceptedWith mk (storedOf E.B kind es ++
+        (if fitsTail E tail = true ∧ kind tail = .object then [tail] else [])) := by
+  rw [processDocuments_render_tail E hB checkN kind mk true _ tail hnl htail,
+    frame_entries_then E checkN tail _ es 0 hwf, frame_blanks E checkN _ tail _ blanks hbl]
+  simp only [Nat.zero_add, frame, ha1, ha2, ha3, Bool.not_true, Bool.false_eq_true, if_false, tailDoc, hne]
+  by_cases hf : fitsTail E tail = true
+  · simp only [hf, if_true, endOf, hclean, true_and]
+    have hv : ∀ d, d ∈ docsOf E.B es ++ [tail] → kind d ≠ .invalid := by
+      intro d hd
+      rcases List.mem_append.mp hd with h | h
+      · exact hvalid d h
+      · simp only [List.mem_singleton] at h; subst h; exact hlast hf
+    rw [finish_done kind mk _ hv]
+    congr 1
+    simp only [storedOf, objects, List.filter_append, List.filter_cons, List.filter_nil]
+    by_cases hk : kind tail = .object <;> simp [hk]
+  · have hf' : fitsTail E tail = false := by simpa using hf
+    simp only [hf', Bool.false_eq_true, if_false, hskip hf', if_true, endNext, hclean, false_and, List.append_nil]
+    exact finish_done kind mk _ hvalid
+
+/-- an over-long unterminated last line whose skipping runs into the end of the stream (its length is an exact
+multiple of the buffer, up to the `'\r'` put-backs) makes `ReadDoc` fail with "reading document: EOF": the whole
+request is rejected and nothing is stored - the code as it is; the property's "skipped without disturbing the
+neighbours" holds for terminated over-size lines (`c10_skips_local`) and for the other unterminated ones -/
+theorem c10_unterminated_oversize_rejected (E : Env) (hB : 2 ≤ E.B)
+    (checkN : Nat) (kind : Bytes → Kind) (mk : Bytes → Meta) (storeOk : Bool) (es : List Entry) (blanks : List Bytes)
+    (action tail : Bytes)
+    (hnl : NoNL (es.flatMap Entry.lines ++ (blanks ++ [action]))) (htail : 10 ∉ tail)
+    (hwf : WFFrom E checkN 0 es) (hbl : ∀ b, b ∈ blanks → Blank E.B b)
+    (ha1 : fits E.B action = true) (ha2 : dropCR action ≠ [])
+    (ha3 : unknownAction checkN es.length (dropCR action) = false)
+    (hf : fitsTail E tail = false) (hskip : tailSkipOk E tail = false) :
+    (∃ x, (processDocuments E checkN kind mk storeOk
+      (render (es.flatMap Entry.lines ++ (blanks ++ [action])) ++ tail)).resp = .error x) ∧
+    (processDocuments E checkN kind mk storeOk
+      (render (es.flatMap Entry.lines ++ (blanks ++ [action])) ++ tail)).stored = none := by
+  apply c10_invalid_stores_nothing
+  left
+  rw [readAll_render_tail E hB checkN _ tail hnl htail,
+    frame_entries_then E checkN tail _ es 0 hwf, frame_blanks E checkN _ tail _ blanks hbl]
+  have hne : tail ≠ [] := by
+    intro h; subst h
+    simp [fitsTail] at hf; omega
+  simp [frame, ha1, ha2, ha3, tailDoc, hne, hf, hskip]
+
+/-- the fuel of the model's loops never runs out: for every body, every buffer of at least 2 bytes (bufio's
+minimum is 16) and every oracle the answer is not the model artefact `Err.fuel` -/
+theorem c10_model_total (E : Env) (hB : 2 ≤ E.B) (checkN : Nat) (kind : Bytes → Kind) (mk : Bytes → Meta)
+    (storeOk : Bool) (body : Bytes) :
+    (processDocuments E checkN kind mk storeOk body).resp ≠ .error .fuel := by
+  obtain ⟨ls, tail, rfl, hnl, htail⟩ := exists_lines body
+  rw [processDocuments_render_tail E hB checkN kind mk storeOk ls tail hnl htail]
+  intro h
+  cases hp : procList kind mk St.init (frame E checkN tail .action 0 ls).1 (frame E checkN tail .action 0 ls).2 with
+  | err x =>
+    rw [hp] at h
+    simp only [finish] at h
+    injection h with h
+    subst h
+    rcases procList_err_inv kind mk _ _ _ _ hp with h | h
+    · cases h
+    · exact frame_no_fuel E checkN tail ls .action 0 h
+  | ok st =>
+    rw [hp] at h
+    simp only [finish] at h
+    split at h
+    · cases h
+    · split at h <;> cases h
+
 /-! ## time rule -/
 
 open SV.Extracted.C10 in
-/-- E: the mechanical translation of `documentDelayed` extracted from the source is the hand model of the code
-as written at the pinned commit, or the repaired comparison -/
-theorem c10_x_delayed_model :
-    (∀ d p f, documentDelayedX d p f = documentDelayed d p f) ∨
-    (∀ d p f, documentDelayedX d p f = documentDelayedRepaired d p f) := by
+/-- E: the mechanical translation of `documentDelayed` extracted from the source is the repaired comparison
+`docDelay > drift || docDelay < -futureDrift` (repository commit 5825a86; before it the code was
+`TimeRule.documentDelayed`, see `c10_time_rule_counterexample`) -/
+theorem c10_x_delayed_model : ∀ d p f, documentDelayedX d p f = documentDelayedRepaired d p f := by
+  intro d p f
   first
-    | (refine Or.inr ?_; intro d p f; rfl)
-    | (refine Or.inl ?_; intro d p f; rfl)
-    | (refine Or.inr ?_; intro d p f; simp [documentDelayedX, documentDelayedRepaired, negWrap64, negWrap, minI]; done)
-    | (refine Or.inl ?_; intro d p f; simp [documentDelayedX, documentDelayed, negWrap64, negWrap, minI]; done)
+    | rfl
+    | (simp [documentDelayedX, documentDelayedRepaired, negWrap64, negWrap, minI]; done)
 
-/-- **C10 (time rule) - repaired comparison.**  With `docDelay < -futureDrift` (as Go evaluates it) the ID carries the document's own
-time iff it parses and `-future ≤ request - doc ≤ past`, and the receive time otherwise - for every instant,
-including those beyond the int64 nanosecond range. -/
-theorem c10_time_rule_fixed (doc : Option Int) (req drift fut : Int)
+/-- **C10 (time rule).**  For the code that exists (the extracted `documentDelayedX`), every request time, every
+document time - parsed or not, including instants beyond the int64 nanosecond range - and all drifts in
+`[0, maxInt64)`: the ID carries the document's own time iff it parses and `-future ≤ request - doc ≤ past`, and
+the receive time otherwise. -/
+theorem c10_time_rule (doc : Option Int) (req drift fut : Int)
     (hd : 0 ≤ drift ∧ drift < maxI) (hf : 0 ≤ fut ∧ fut < maxI) :
-    idTime documentDelayedRepaired doc req drift fut = ruleTime doc req drift fut :=
-  idTime_repaired doc req drift fut hd hf
-
-/-- full statement: `∀ doc req drift fut, idTime documentDelayedX doc req drift fut = ruleTime doc req drift fut`
-(for `0 ≤ drift, fut < maxI`).  Proved for the code that exists (the extracted `documentDelayedX`) under the
-extra hypothesis that the document is less than 2^63 ns ahead of the request - not needed once the extracted
-function is the repaired one. -/
-theorem c10_time_rule_partial (doc : Option Int) (req drift fut : Int)
-    (hd : 0 ≤ drift ∧ drift < maxI) (hf : 0 ≤ fut ∧ fut < maxI)
-    (hfit : (∀ d p f, SV.Extracted.C10.documentDelayedX d p f = documentDelayedRepaired d p f) ∨
-      ∀ t, doc = some t → minI < req - t) :
     idTime SV.Extracted.C10.documentDelayedX doc req drift fut = ruleTime doc req drift fut := by
-  rcases c10_x_delayed_model with hm | hm
-  · rcases hfit with hfix | hfit
-    · have : SV.Extracted.C10.documentDelayedX = documentDelayedRepaired := by funext d p f; exact hfix d p f
-      rw [this]; exact idTime_repaired doc req drift fut hd hf
-    · have : SV.Extracted.C10.documentDelayedX = documentDelayed := by funext d p f; exact hm d p f
-      rw [this]
-      cases doc with
-      | none => rfl
-      | some t => exact idTime_written_partial t req drift fut hd ⟨hf.1, by omega⟩ (hfit t rfl)
-  · have : SV.Extracted.C10.documentDelayedX = documentDelayedRepaired := by funext d p f; exact hm d p f
-    rw [this]; exact idTime_repaired doc req drift fut hd hf
+  have : SV.Extracted.C10.documentDelayedX = documentDelayedRepaired := by
+    funext d p f; exact c10_x_delayed_model d p f
+  rw [this]; exact idTime_repaired doc req drift fut hd hf
 
 /-- **C10 (stored documents are timed by the rule and sized exactly).**  In an accepted request the `i`-th meta
-of the `StoreDocuments` call belongs to the `i`-th stored document `d`: `Size = len(d)` and the MID of its ID is
-`TimeToMID` of the document's own time when that parses and lies within the drifts, of the receive time otherwise
-(`c10_stored_exactly` gives `metas = stored.map (metaFor T)`; this is the value of `metaFor T d`).  Same
-hypothesis as `c10_time_rule_partial`: not needed once the extracted `documentDelayed` is the repaired one. -/
-theorem c10_stored_meta_partial (timeOf : Bytes → Option Int) (req drift fut : Int) (d : Bytes)
-    (hd : 0 ≤ drift ∧ drift < maxI) (hf : 0 ≤ fut ∧ fut < maxI) (hlen : d.length < 4294967296)
-    (hfit : (∀ d p f, SV.Extracted.C10.documentDelayedX d p f = documentDelayedRepaired d p f) ∨
-      ∀ t, timeOf d = some t → minI < req - t) :
+of the `StoreDocuments` call belongs to the `i`-th stored document `d` (`c10_stored_exactly` gives
+`metas = stored.map (metaFor T)`); this is its value: `Size = len(d)` and the MID of its ID is `TimeToMID` of the
+document's own time when that parses and lies within the drifts, of the receive time otherwise. -/
+theorem c10_stored_meta (timeOf : Bytes → Option Int) (req drift fut : Int) (d : Bytes)
+    (hd : 0 ≤ drift ∧ drift < maxI) (hf : 0 ≤ fut ∧ fut < maxI) (hlen : d.length < 4294967296) :
     metaFor ⟨SV.Extracted.C10.documentDelayedX, timeOf, req, drift, fut⟩ d =
       ⟨timeToMID (ruleTime (timeOf d) req drift fut), d.length⟩ := by
-  simp only [metaFor, docMID, c10_time_rule_partial (timeOf d) req drift fut hd hf hfit, Nat.mod_eq_of_lt hlen]
+  simp only [metaFor, docMID, c10_time_rule (timeOf d) req drift fut hd hf, Nat.mod_eq_of_lt hlen]
 
-/-- the full rule is FALSE for `documentDelayed` as written at the pinned commit: a document stamped
+/-- historical, about the definition before the repair: under the extra hypothesis that the document is less
+than 2^63 ns ahead of the request the old comparison obeyed the rule -/
+theorem c10_time_rule_written_partial (t req drift fut : Int)
+    (hd : 0 ≤ drift ∧ drift < maxI) (hf : 0 ≤ fut ∧ fut ≤ maxI) (hfit : minI < req - t) :
+    idTime documentDelayed (some t) req drift fut = ruleTime (some t) req drift fut :=
+  idTime_written_partial t req drift fut hd hf hfit
+
+/-- historical: the full rule was FALSE for `documentDelayed` as written before the repair: a document stamped
 2400-01-01 00:00:00 UTC received on 2026-09-25 with 24 h of allowed drift both ways keeps its own time, and the
 ID gets the MID of a wrapped `UnixNano` (18446739196431077907, i.e. "year 584 million") -/
 theorem c10_time_rule_counterexample :
@@ -335,13 +401,65 @@ example : processDocuments E16 5 kindEx mkEx true (bodyOf esEx [[], [13]]) = acc
   (c10_stored_exactly E16 (by decide) (by decide) rfl 5 kindEx mkEx esEx [[], [13]]
     (by decide) wfEx (by decide) (by decide)).1
 
+/-- `c10_skips_local` on the same body: the non-object entry (index 1) is skipped, its neighbours are stored -/
+example : processDocuments E16 5 kindEx mkEx true (bodyOf ([esEx[0]] ++ esEx[1] :: [esEx[2], esEx[3]]) [[], [13]]) =
+    acceptedWith mkEx (storedOf 16 kindEx [esEx[0]] ++ storedOf 16 kindEx [esEx[2], esEx[3]]) :=
+  c10_skips_local E16 (by decide) rfl 5 kindEx mkEx [esEx[0]] [esEx[2], esEx[3]] esEx[1] [[], [13]]
+    (by decide) wfEx (by decide) (by decide) (Or.inr (by decide))
+
+/-- a meta with the `_all_` token and a keyword token round-trips -/
+example : (decodeDocs (encodeMetas [⟨1790000000000, 77, 2, [⟨[95, 97, 108, 108, 95], []⟩, ⟨[107], [118]⟩]⟩]).length
+    (encodeMetas [⟨1790000000000, 77, 2, [⟨[95, 97, 108, 108, 95], []⟩, ⟨[107], [118]⟩]⟩])).bind (fun rs => rs.mapM decMeta) =
+    some [⟨1790000000000, 77, 2, [⟨[95, 97, 108, 108, 95], []⟩, ⟨[107], [118]⟩]⟩] := by decide
+
 /-- an invalid line after a stored one: nothing is stored -/
 example : processDocuments E16 5 kindEx mkEx true (render [qIndex, [123, 125], qIndex, [120]]) = ⟨.error .badJSON, none⟩ := by
   decide
 
-/-- the hypotheses of the partial time rule are met by an ordinary document one hour behind -/
+/-- hypotheses of `c10_invalid_stores_nothing` / `c10_invalid_entry_stores_nothing`: the reader does yield the
+invalid line `x` -/
+example : ∃ d, d ∈ (readAll E16 5 (render [qIndex, [123, 125], qIndex, [120]])).1 ∧ kindEx d = .invalid :=
+  ⟨[120], by decide, by decide⟩
+
+/-- a protocol error (unknown first action line) is an error ending of the reader -/
+example : (readAll E16 5 (render [[100, 101, 108], [123, 125]])).2 = .err .unknownAction := by decide
+
+/-- `c10_accepted_characterised`: its hypothesis holds for the accepted body above -/
+example : (processDocuments E16 5 kindEx mkEx true (render (esEx.flatMap Entry.lines ++ [[], [13]]))).resp = .ok 2 := by
+  decide
+
+/-- `c10_stored_exactly_unterminated`: last document `{}` without a newline, buffer 16 -/
+example : processDocuments E16 5 kindEx mkEx true (render ([esEx[0]].flatMap Entry.lines ++ ([[13]] ++ [qIndex])) ++ [123, 125]) =
+    acceptedWith mkEx (storedOf 16 kindEx [esEx[0]] ++ [[123, 125]]) :=
+  c10_stored_exactly_unterminated E16 (by decide) rfl 5 kindEx mkEx [esEx[0]] [[13]] qIndex [123, 125]
+    (by decide) (by decide) (by decide) ⟨wfEx.1, trivial⟩ (by decide) (by decide) (by decide) (by decide) (by decide)
+    (by decide) (by decide)
+
+/-- an unterminated last line of 17 bytes (buffer 16) is skipped: 16 bytes as prefix, 1 byte as the final line -/
+example : fitsTail E16 (List.replicate 17 120) = false ∧ tailSkipOk E16 (List.replicate 17 120) = true := by decide
+
+/-- `c10_unterminated_oversize_rejected`: exactly 16 bytes (lazy end of stream): the prefix chunk is followed by
+EOF, the request fails and the first document is not stored -/
+example : fitsTail E16 (List.replicate 16 120) = false ∧ tailSkipOk E16 (List.replicate 16 120) = false ∧
+    processDocuments E16 5 kindEx mkEx true (render [qIndex, [123, 125], qIndex] ++ List.replicate 16 120) =
+      ⟨.error .readDoc, none⟩ := by decide
+
+/-- the same 16 bytes when the stream's end arrives with the data (`eager`): one in-limit line -/
+example : fitsTail ⟨16, true, true⟩ (List.replicate 16 120) = true := by decide
+
+/-- time rule hypotheses: 24 h / 2 h drifts; an ordinary document one hour behind keeps its time, a document of
+the year 2400 gets the receive time, an unparsed one gets the receive time -/
+example : ruleTime (some 1789996400000000000) 1790000000000000000 86400000000000 7200000000000 = 1789996400000000000 ∧
+    ruleTime (some 13569465600000000000) 1790000000000000000 86400000000000 7200000000000 = 1790000000000000000 ∧
+    ruleTime none 1790000000000000000 86400000000000 7200000000000 = 1790000000000000000 ∧
+    (0 ≤ (86400000000000 : Int) ∧ (86400000000000 : Int) < maxI) := by decide
+
+/-- the old definition did obey the rule for an ordinary document (hypotheses of `c10_time_rule_written_partial`) -/
 example : idTime documentDelayed (some 1789996400000000000) 1790000000000000000 86400000000000 86400000000000
-    = 1789996400000000000 := by decide
+    = 1789996400000000000 ∧ minI < (1790000000000000000 : Int) - 1789996400000000000 := by decide
+
+/-- `extractDocTime`: `timestamp` present but unparsable, `time` parses with the second format -/
+example : extractDocTime 3 (fun f v => if f = 1 ∧ v = [50] then some 42 else none) [[49], [50], []] = some 42 := by decide
 
 end examples
 
